@@ -244,6 +244,8 @@ def device(b, name, fail=False, color=None, power=None, features=None):
     wf = b.module('lifxlan.errors').ns['WorkflowException']
     dev = Opaque(name)
     dev.native = {'kind': 'device'}
+    if fail == 'other':
+        dev.native['raises'] = {'*': I.builtins['ValueError']}
 
     def maybe_fail(I_):
         I_.ghost['attempts'] = I_.ghost.get('attempts', 0) + 1
